@@ -130,6 +130,15 @@ def lex_programs():
     for name, lit in (("two-blanks-in-literal", "a  b"), ("if-in-literal", "what if not")):
         e2 = [mk("G", "bool", prompt=Y, defaults=[{"v": Y, "c": Y}]), mk("SL", "string", prompt=Y, defaults=[{"v": C(lit), "c": S("G")}, {"v": C("z"), "c": Y}])]
         out.append({"prog": e2, "ord": [["s", "G"], ["s", "SL"]], "vars": [{"n": "G", "kind": "sym", "cands": [ktree.NOVAL, "n"]}], "family": "F-lex", "lex": name})
+    # a literal with an escaped quote followed by '#', a literal ending in an escaped backslash (both with a trailing
+    # comment in the inline-comments style), a float with decimals and exponent, an option name that starts with a digit
+    e3 = [
+        mk("3RD", "bool", prompt=Y, defaults=[{"v": Y, "c": Y}]),
+        mk("SQ", "string", prompt=Y, defaults=[{"v": C('a " # b'), "c": S("3RD")}, {"v": C("dir\\"), "c": Y}]),
+        mk("SB", "string", prompt=Y, dep=S("3RD"), defaults=[{"v": C("C:\\tmp\\"), "c": ["=", S("SQ"), C("dir\\")]}, {"v": C("'"), "c": Y}]),
+        mk("FE", "float", prompt=Y, defaults=[{"v": C("1.5e-6"), "c": S("3RD")}, {"v": C("2e3"), "c": Y}]),
+    ]
+    out.append({"prog": e3, "ord": [["s", n] for n in ("3RD", "SQ", "SB", "FE")], "vars": [{"n": "3RD", "kind": "sym", "cands": [ktree.NOVAL, "n"]}, {"n": "SQ", "kind": "sym", "cands": [ktree.NOVAL, "x"]}], "family": "F-lex", "lex": "escapes-and-numbers"})
     return out
 
 
@@ -141,7 +150,7 @@ def main(run):
     lat = lattice.prec_lattice(tier)
     if tier == "quick":
         items = [p for k, p in enumerate(lat) if p["family"] in ("F-edge", "F-setsym", "F-regress") or k % 12 == 0] + nav_programs() + lex_programs() + ktree.generate(run.seed + 6100, 40)
-        styles = ["separate-prompt+shuffle", "comments", "continuation", "everything", "macros", "macros+rsource", "split-and", "min-parens", "two-prompts", "odd-text"]
+        styles = ["separate-prompt+shuffle", "comments", "continuation", "everything", "macros", "macros+rsource", "split-and", "min-parens", "two-prompts", "odd-text", "inline-comments"]
         cap = 24
     else:
         items = lat[::2] + nav_programs() + lex_programs() + ktree.generate(run.seed + 6100, 1500)
@@ -194,7 +203,7 @@ def main(run):
                 break
         # lexical variants: each parser must read every variant as the canonical program
         # (programs that exist for one literal only are compared in their canonical form and no further)
-        for st in ([] if it.get("lex") else styles):
+        for st in ([] if it.get("lex") in ("two-blanks-in-literal", "if-in-literal") else styles):
             vtext, vextra = ktree.render_styled(prog, st, random.Random("%d/v%d%s" % (run.seed, pi, st)))
             nvar += 1
             if ktree.STYLES[st].get("odd_text"):
